@@ -347,6 +347,20 @@ def run_step(case):
         return k
 
     ham.sample_momentum, ham.kinetic_energy = sample, kinetic
+    if case.get("fail_first"):
+        # a target whose first `fail_first` evaluations by the INTEGRATOR (the ones made with gradients enabled) are
+        # NaN: exactly that many trials of the step end in the documented numerical failure, the next one is ordinary
+        joint = ham.joint
+        orig_call = joint._call
+        left = [int(case["fail_first"])]
+
+        def failing(*a, **kw):
+            v = orig_call(*a, **kw)
+            if torch.is_grad_enabled() and left[0] > 0:
+                left[0] -= 1
+                return v * float("nan")
+            return v
+        joint._call = failing
     torch.manual_seed(case["draw_seed"])
     minv = op.inverse_mass_matrix.detach().clone()
     ret = op.step()
@@ -902,6 +916,37 @@ def check_retry_path(seed, want=4, tries=200):
     return None, None, found
 
 
+def check_exact_failure_counts(seed):
+    """Exactly k failed trials followed by an ordinary one, k = 1, 8, 9 (the last allowed trial succeeds) and 10 (all
+    of them fail): the value returned is the kinetic-energy change of the trial that ran, +inf only when none did."""
+    g = random.Random(seed * 7919 + 5)
+    for k in (1, 8, 9, 10):
+        n = g.randint(1, 3)
+        case = dict(kind="normal", eps=0.1, L=g.choice([1, 3]), draw_seed=g.randrange(2 ** 31), sizes=[n], n=n,
+                    q0=[g.uniform(-1, 1) for _ in range(n)],
+                    target=dict(loc=[0.0] * n, scale=[1.0] * n, how="one"), mass_kind="diag", mass=[1.0] * n,
+                    mass_update=False, fail_first=k)
+        try:
+            out = run_step(case)
+        except Exception as e:  # noqa
+            return case, f"{k} failed trials then an ordinary one: step() raises {type(e).__name__}: {str(e)[:160]}"
+        if k < 10:
+            if out["failed"]:
+                return case, (f"{k} trials failed and trial {k + 1} ran an ordinary trajectory, yet step() returned "
+                              f"{out['ret']!r} (parameters now {out['q1']}, started at {case['q0']})")
+            if out["draws"] != k + 1:
+                return case, f"{k} failing evaluations but {out['draws']} momentum draws"
+            bad = check_step_outputs(case, out)
+            if bad:
+                return case, f"after exactly {k} failed trials: " + "; ".join(t_ for _, t_ in bad)
+        else:
+            if not out["failed"]:
+                return case, f"all ten trials failed yet step() returned {out['ret']!r}"
+            if out["q1"] != [float(v) for v in case["q0"]]:
+                return case, f"all ten trials failed but the parameters moved: {case['q0']} -> {out['q1']}"
+    return None, None
+
+
 # ----------------------------------------------------------------------------- per-case work (worker processes)
 
 def work(args):
@@ -992,6 +1037,11 @@ def work_failure(seed):
     with contextlib.redirect_stdout(io.StringIO()):
         try:
             c, text = check_failure_path(seed)
+            if text is None:
+                c, text = check_exact_failure_counts(seed)
+                if text is not None:
+                    return c, "exact number of failed trials: " + text
+                text = None
             if text is None:
                 c2, text2, n_retry = check_retry_path(seed)
                 if text2 is not None:
